@@ -25,6 +25,7 @@ theorem upd_apply {α : Type} (f : Nat → α) (i j : Nat) (v : α) :
     (st.modScp s f).nListeners = st.nListeners := rfl
 @[simp] theorem modScp_log (st : State) (s : Nat) (f : Scp → Scp) : (st.modScp s f).log = st.log := rfl
 @[simp] theorem modScp_trace (st : State) (s : Nat) (f : Scp → Scp) : (st.modScp s f).trace = st.trace := rfl
+@[simp] theorem modScp_gates (st : State) (s : Nat) (f : Scp → Scp) : (st.modScp s f).gates = st.gates := rfl
 @[simp] theorem modScp_scp_same (st : State) (s : Nat) (f : Scp → Scp) :
     (st.modScp s f).scp s = f (st.scp s) := by simp [State.modScp]
 theorem modScp_scp_ne (st : State) {s t : Nat} (f : Scp → Scp) (h : t ≠ s) :
@@ -42,6 +43,7 @@ theorem modScp_scp (st : State) (s t : Nat) (f : Scp → Scp) :
     (st.modCtx c f).nListeners = st.nListeners := rfl
 @[simp] theorem modCtx_log (st : State) (c : Nat) (f : Ctx → Ctx) : (st.modCtx c f).log = st.log := rfl
 @[simp] theorem modCtx_trace (st : State) (c : Nat) (f : Ctx → Ctx) : (st.modCtx c f).trace = st.trace := rfl
+@[simp] theorem modCtx_gates (st : State) (c : Nat) (f : Ctx → Ctx) : (st.modCtx c f).gates = st.gates := rfl
 @[simp] theorem modCtx_ctx_same (st : State) (c : Nat) (f : Ctx → Ctx) :
     (st.modCtx c f).ctx c = f (st.ctx c) := by simp [State.modCtx]
 theorem modCtx_ctx_ne (st : State) {c d : Nat} (f : Ctx → Ctx) (h : d ≠ c) :
@@ -67,10 +69,11 @@ structure EvStep (st st' : State) (s : Nat) : Prop where
   ctx_errors : ∀ c, (st.ctx c).errors ≤ (st'.ctx c).errors
   ctx_done : ∀ c, (st.ctx c).done = true → (st'.ctx c).done = true
   ctx_errdone : ∀ c, (st.ctx c).errors < (st'.ctx c).errors → (st'.ctx c).done = true
+  gates : st'.gates = st.gates
 
 theorem EvStep.refl (st : State) (s : Nat) : EvStep st st s :=
   ⟨rfl, rfl, rfl, rfl, fun _ _ => rfl, fun _ => rfl, fun _ => rfl, fun _ => Nat.le_refl _, fun _ h => h,
-   fun _ h => absurd h (Nat.lt_irrefl _)⟩
+   fun _ h => absurd h (Nat.lt_irrefl _), rfl⟩
 
 theorem EvStep.trans {a b c : State} {s : Nat} (h1 : EvStep a b s) (h2 : EvStep b c s) : EvStep a c s where
   scp := h2.scp.trans h1.scp
@@ -88,14 +91,15 @@ theorem EvStep.trans {a b c : State} {s : Nat} (h1 : EvStep a b s) (h2 : EvStep 
     · exact h2.ctx_done x (h1.ctx_errdone x h)
     · have := h1.ctx_errors x
       exact h2.ctx_errdone x (by omega)
+  gates := h2.gates.trans h1.gates
 
 theorem evStep_trigger (st : State) (s : Nat) (ev : Ev) (src : Option Nat) :
     EvStep st (st.trigger s ev src).1 s :=
   ⟨rfl, rfl, rfl, rfl, fun _ _ => rfl, fun _ => rfl, fun _ => rfl, fun _ => Nat.le_refl _, fun _ h => h,
-   fun _ h => absurd h (Nat.lt_irrefl _)⟩
+   fun _ h => absurd h (Nat.lt_irrefl _), rfl⟩
 
 theorem evStep_addError (st : State) (s : Nat) : EvStep st (st.addError s) s := by
-  refine ⟨rfl, rfl, rfl, rfl, ?_, ?_, ?_, ?_, ?_, ?_⟩
+  refine ⟨rfl, rfl, rfl, rfl, ?_, ?_, ?_, ?_, ?_, ?_, rfl⟩
   · intro c hc; simp [State.addError, modCtx_ctx_ne _ _ hc]
   all_goals
     intro c
@@ -103,7 +107,7 @@ theorem evStep_addError (st : State) (s : Nat) : EvStep st (st.addError s) s := 
     split <;> simp_all
 
 theorem evStep_setDone (st : State) (s : Nat) : EvStep st (st.setDone s) s := by
-  refine ⟨rfl, rfl, rfl, rfl, ?_, ?_, ?_, ?_, ?_, ?_⟩
+  refine ⟨rfl, rfl, rfl, rfl, ?_, ?_, ?_, ?_, ?_, ?_, rfl⟩
   · intro c hc; simp [State.setDone, modCtx_ctx_ne _ _ hc]
   all_goals
     intro c
@@ -211,5 +215,118 @@ theorem closeTrace_fire_nonclose (st : State) (s : Nat) {ev : Ev} (src : Option 
 theorem addError_hasErr (st : State) (s : Nat) :
     ((st.addError s).ctx (st.scp s).ctx).errors ≠ 0 ∧ ((st.addError s).ctx (st.scp s).ctx).done = true := by
   simp [State.addError]
+
+/-! ### the triggers of `Close` (listeners may be gated) -/
+
+/-- logging listener invocations and recording a `Trigger` call touch neither scopes nor contexts -/
+theorem evStep_log (st : State) (s : Nat) (es : List Entry) : EvStep st { st with log := st.log ++ es } s :=
+  ⟨rfl, rfl, rfl, rfl, fun _ _ => rfl, fun _ => rfl, fun _ => rfl, fun _ => Nat.le_refl _, fun _ h => h,
+   fun _ h => absurd h (Nat.lt_irrefl _), rfl⟩
+
+theorem evStep_traceApp (st : State) (s : Nat) (l : List (Nat × Ev)) :
+    EvStep st { st with trace := st.trace ++ l } s :=
+  ⟨rfl, rfl, rfl, rfl, fun _ _ => rfl, fun _ => rfl, fun _ => rfl, fun _ => Nat.le_refl _, fun _ h => h,
+   fun _ h => absurd h (Nat.lt_irrefl _), rfl⟩
+
+theorem evStep_appendError_from_add (st : State) (s : Nat) : EvStep (st.addError s) (st.appendError s) s := by
+  unfold State.appendError
+  have h2 := evStep_trigger (st.addError s) s .error none
+  simp only []
+  split
+  · exact h2.trans (evStep_addError _ s)
+  · exact h2
+
+/-- after `Scope.appendError` the context of `s` holds an error -/
+theorem appendError_hasErr (st : State) (s : Nat) : ((st.appendError s).ctx (st.scp s).ctx).errors ≠ 0 := by
+  have h1 := (addError_hasErr st s).1
+  have h2 := (evStep_appendError_from_add st s).ctx_errors (st.scp s).ctx
+  omega
+
+/-- what one piece of a trigger of `Close` of scope `s` does: listener invocations and at most one
+`Scope.appendError` (an `EvStep`), then the record of `s` notes that the goroutine parked, or that
+the trigger ended (next phase; a returned error is in the context by then) -/
+inductive TrigStep (st : State) (s : Nat) : State → Prop where
+  | parked (st1 : State) (p : Park) (e : EvStep st st1 s) :
+      TrigStep st s (st1.modScp s fun x => { x with park := some p })
+  | ended (st1 : State) (failed : Bool) (e : EvStep st st1 s)
+      (herr : failed = true → (st1.ctx (st.scp s).ctx).errors ≠ 0) :
+      TrigStep st s (st1.modScp s fun x =>
+        { x with phase := x.phase.next, park := none, lfail := failed || x.lfail })
+
+theorem TrigStep.of_evStep {st sta st' : State} {s : Nat} (e : EvStep st sta s) (t : TrigStep sta s st') :
+    TrigStep st s st' := by
+  cases t with
+  | parked st1 p e1 => exact .parked st1 p (e.trans e1)
+  | ended st1 failed e1 herr => exact .ended st1 failed (e.trans e1) (by rw [← e.scp]; exact herr)
+
+theorem trigStep_endTrigger (st : State) (s : Nat) (failed : Bool) : TrigStep st s (st.endTrigger s failed) := by
+  unfold State.endTrigger
+  refine .ended _ failed ?_ ?_
+  · cases failed
+    · exact EvStep.refl st s
+    · exact evStep_appendError st s
+  · intro hf; subst hf; exact appendError_hasErr st s
+
+theorem trigStep_applyTrig (st : State) (s : Nat) (r : List Entry × TrigRes) : TrigStep st s (st.applyTrig s r) := by
+  unfold State.applyTrig
+  split
+  · exact (trigStep_endTrigger _ s _).of_evStep (evStep_log st s r.1)
+  · exact .parked _ _ (evStep_log st s r.1)
+
+theorem trigStep_startTrigger (st : State) (s : Nat) (ev : Ev) : TrigStep st s (st.startTrigger s ev) := by
+  unfold State.startTrigger
+  exact (trigStep_applyTrig _ s _).of_evStep (evStep_traceApp st s _)
+
+theorem trigStep_resumeTrigger (st : State) (s : Nat) (ev : Ev) (p : Park) :
+    TrigStep st s (st.resumeTrigger s ev p) := by
+  unfold State.resumeTrigger
+  split
+  · exact trigStep_endTrigger st s true
+  · split
+    · exact trigStep_applyTrig st s _
+    · exact trigStep_applyTrig st s _
+
+/-- close events are recorded when a trigger starts, nothing else of a trigger is a close event -/
+theorem closeTrace_endTrigger (st : State) (s : Nat) (failed : Bool) (t : Nat) :
+    (st.endTrigger s failed).closeTrace t = st.closeTrace t := by
+  unfold State.endTrigger
+  cases failed <;> simp
+
+theorem closeTrace_applyTrig (st : State) (s : Nat) (r : List Entry × TrigRes) (t : Nat) :
+    (st.applyTrig s r).closeTrace t = st.closeTrace t := by
+  unfold State.applyTrig
+  split
+  · rw [closeTrace_endTrigger]; rfl
+  · rfl
+
+theorem closeTrace_startTrigger (st : State) (s : Nat) (ev : Ev) (t : Nat) :
+    (st.startTrigger s ev).closeTrace t = st.closeTrace t ++ (if s = t ∧ ev.isClose = true then [ev] else []) := by
+  unfold State.startTrigger
+  rw [closeTrace_applyTrig]
+  rw [closeTrace_of_trace_append st { st with trace := st.trace ++ [(s, ev)] } [(s, ev)] rfl]
+  by_cases h1 : s = t <;> by_cases h2 : ev.isClose = true <;> simp [h1, h2]
+
+theorem closeTrace_resumeTrigger (st : State) (s : Nat) (ev : Ev) (p : Park) (t : Nat) :
+    (st.resumeTrigger s ev p).closeTrace t = st.closeTrace t := by
+  unfold State.resumeTrigger
+  split
+  · exact closeTrace_endTrigger st s true t
+  · split <;> exact closeTrace_applyTrig st s _ t
+
+/-! ### the phases -/
+
+theorem evOf_facts {ph : Phase} {rb : Bool} {ev : Ev} (h : evOf ph rb = some ev) :
+    ph.live = true ∧ ph.next.live = true ∧ ph ≠ .opened ∧ ph.next ≠ .opened ∧
+      (ph.next.waited = true → ph.waited = true) ∧ ph.next.idx = ph.idx + 1 ∧ ev.isClose = true ∧
+      (fullSeq rb).take (ph.idx + 1) = (fullSeq rb).take ph.idx ++ [ev] ∧
+      (ph.waited = false → ph = .begun) := by
+  cases ph <;> cases rb <;> simp [evOf] at h <;> subst h <;> decide
+
+/-- before `Wait()` has returned the events fired do not depend on the branch -/
+theorem closeSeq_unwaited {ph : Phase} (h : ph.waited = false) (rb rb' : Bool) {pk : Bool}
+    (hp : pk = true → ph = .begun) : closeSeq ph rb pk = closeSeq ph rb' pk := by
+  cases pk
+  · cases ph <;> cases rb <;> cases rb' <;> first | rfl | (exact absurd h (by decide))
+  · rw [hp rfl]; cases rb <;> cases rb' <;> rfl
 
 end Goat.Scope
